@@ -1254,6 +1254,11 @@ fn gen_cases(p: &mut Prng, pools: &Pools, scale: u64) -> Vec<Case> {
 			format!("{}\u{e9}", &os[..54]),
 			format!("{}\u{131}", &os[..55]),
 			"\u{df}".repeat(28),
+			// base32 padding inside the 56 characters: fewer than 32 decoded bytes
+			format!("{}======", &os[..50]),
+			format!("{}=", &os[..55]),
+			format!("{}====", &os[..52]),
+			format!("{}{}", &os[..48], "=".repeat(8)),
 		]
 		.iter()
 		{
